@@ -252,6 +252,13 @@ fn check_build(input: &(u8, u16, u8), case: &mut Case) -> Result<(), Fail> {
     let mut cur = std::io::Cursor::new(Vec::new());
     lib("write_to", || p.write_to(&mut cur))?.map_err(|e| Fail::new("c08:build-failed", format!("{:?}", e)))?;
     ensure!(cur.get_ref()[..] == out[..], "c08:build-header-writer", "write_to differs from build_bytes_vec");
+    // a writer that takes one byte per write call still receives the same header
+    let mut w = super::c04::ChunkedWriter { inner: std::io::Cursor::new(Vec::new()), chunk: 1 };
+    lib("write_to", || p.write_to(&mut w))?.map_err(|e| Fail::new("c08:build-failed", format!("{:?}", e)))?;
+    ensure!(w.inner.get_ref()[..] == out[..], "c08:build-header-short-writes", "a writer accepting one byte per call receives {} instead of {}", hex(&w.inner.get_ref()[..w.inner.get_ref().len().min(12)]), hex(&out[..12]));
+    let mut w = super::c04::ChunkedWriter { inner: std::io::Cursor::new(Vec::new()), chunk: 3 };
+    lib("write_compressed_to", || p.write_compressed_to(&mut w))?.map_err(|e| Fail::new("c08:build-failed", format!("{:?}", e)))?;
+    ensure!(w.inner.get_ref()[..] == outc[..], "c08:build-header-short-writes", "a writer accepting three bytes per call receives a different compressed message");
     // parse back
     let back = parse(&out)?.map_err(|e| Fail::new("c08:build-unparseable", format!("{:?}", e)))?;
     let o = observe(&back);
@@ -382,10 +389,63 @@ fn check_with_opt(input: &(u16, u8, u8), case: &mut Case) -> Result<(), Fail> {
     Ok(())
 }
 
+/// the four counts: N entries actually present in one section are reported as N entries by the parser,
+/// by the peek functions, and written back as N
+fn enum_counts(_t: Tier, shard: usize, n: usize, f: &mut dyn FnMut((u8, u16)) -> bool) {
+    let mut i = 0;
+    for section in 0..4u8 {
+        for count in [0u16, 1, 2, 3, 17, 100, 127, 128, 179, 180, 181, 182, 200, 255, 256, 257, 300, 512, 1000, 4095, 4096, 5000] {
+            i += 1;
+            if mine(i, shard, n) && !f((section, count)) {
+                return;
+            }
+        }
+    }
+}
+
+fn check_counts(input: &(u8, u16), case: &mut Case) -> Result<(), Fail> {
+    let (section, count) = *input;
+    case.nontrivial = count > 1;
+    let mut m = vec![0x11, 0x22, 0x80, 0x00, 0, 0, 0, 0, 0, 0, 0, 0];
+    let o = 4 + 2 * section as usize;
+    m[o..o + 2].copy_from_slice(&count.to_be_bytes());
+    for k in 0..count {
+        // root name; question: QTYPE A, QCLASS IN; record: type A class IN ttl k rdlength 4
+        if section == 0 {
+            m.extend_from_slice(&[0, 0, 1, 0, 1]);
+        } else {
+            m.extend_from_slice(&[0, 0, 1, 0, 1, 0, 0, (k >> 8) as u8, k as u8, 0, 4, 10, 0, (k >> 8) as u8, k as u8]);
+        }
+    }
+    let peek = [
+        lib("questions", || header_buffer::questions(&m))?,
+        lib("answers", || header_buffer::answers(&m))?,
+        lib("name_servers", || header_buffer::name_servers(&m))?,
+        lib("additional_records", || header_buffer::additional_records(&m))?,
+    ];
+    for k in 0..4 {
+        ensure!(peek[k] == Ok(if k == section as usize { count } else { 0 }), "c08:peek-count", "peek count #{} = {:?}", k, peek[k]);
+    }
+    let p = parse(&m)?.map_err(|e| Fail::new("c08:counts-rejected", format!("{} entries in section {}: {:?}", count, section, e)))?;
+    let got = [p.questions.len(), p.answers.len(), p.name_servers.len(), p.additional_records.len()];
+    for k in 0..4 {
+        ensure!(got[k] == if k == section as usize { count as usize } else { 0 }, "c08:parse-counts", "the header announces {} entries in section {} and they are present, the parsed packet holds {:?}", count, section, got);
+    }
+    for compressed in [false, true] {
+        let out = if compressed { lib("build_bytes_vec_compressed", || p.build_bytes_vec_compressed())? } else { lib("build_bytes_vec", || p.build_bytes_vec())? };
+        let out = out.map_err(|e| Fail::new("c08:rebuild-failed", format!("{:?}", e)))?;
+        ensure!(out.len() >= 12 && out[4..12] == m[4..12], "c08:rebuild-counts", "counts {} re-serialised as {} (compressed={})", hex(&m[4..12]), hex(&out[4..out.len().min(12)]), compressed);
+        if !compressed {
+            ensure!(out == m, "c08:rebuild-message", "{} entries in section {}: the uncompressed re-serialisation differs from the input", count, section);
+        }
+    }
+    Ok(())
+}
+
 pub fn def() -> CheckDef {
     CheckDef {
         id: "C08",
-        rule: "exhaustive enumeration: all 65536 flag words x 5 ids through peek/parse/re-serialise; all 128x128 flag-set pairs x 2 constructors x 128 probes; 5 named opcodes x 12 named rcodes x 128 flag subsets on the build side; all 32768 Z-clear words followed by an OPT record (6 versions x 2 extended rcodes); all 32768 Z-clear received words x 60 (opcode, rcode) pairs assigned after parsing (with flag sets brought to a target by set/remove) and re-serialised. Every case is distinct by construction; non-trivial = word != 0 / both sets non-empty / every build case",
+        rule: "exhaustive enumeration: all 65536 flag words x 5 ids through peek/parse/re-serialise; all 128x128 flag-set pairs x 2 constructors x 128 probes; 5 named opcodes x 12 named rcodes x 128 flag subsets on the build side (all writers incl. writers accepting 1 / 3 bytes per call); 22 entry counts from 0 to 5000 actually present in each of the four sections (parser, peek functions, re-serialisation); all 32768 Z-clear words followed by an OPT record (6 versions x 2 extended rcodes); all 32768 Z-clear received words x 60 (opcode, rcode) pairs assigned after parsing (with flag sets brought to a target by set/remove) and re-serialised. Every case is distinct by construction; non-trivial = word != 0 / both sets non-empty / every build case",
         assumptions: vec!["bit layout transcribed from RFC 1035 section 4.1.1 (+ AD/CD from RFC 2535) in checks/c08.rs"],
         sections: vec![
             Box::new(EnumSection {
@@ -402,6 +462,7 @@ pub fn def() -> CheckDef {
                 check: check_algebra,
                 exhaustive: true,
             }),
+            Box::new(EnumSection { name: "counts", rule: "0..5000 entries actually present in each section", enumerate: enum_counts, check: check_counts, exhaustive: true }),
             Box::new(EnumSection {
                 name: "words-with-opt",
                 rule: "all Z-clear words x 6 EDNS versions x 2 extended rcodes",
